@@ -103,6 +103,10 @@ pub struct SampleStreamSource {
     queue: Arc<SpscRing<MediaSample>>,
     notify: Arc<Notify>,
     pop_lock: Arc<SyncMutex<()>>,
+    /// Serialises producers. The ring is single-producer, but this handle is `Clone` and
+    /// `Sync`: without the lock two threads pushing through clones (or through one shared
+    /// handle) race on `tail` and on the drop-oldest path and corrupt the ring indices.
+    push_lock: Arc<SyncMutex<()>>,
     source_closed: Arc<AtomicBool>,
     active_senders: Arc<std::sync::atomic::AtomicUsize>,
     drop_count: Arc<AtomicU64>,
@@ -129,6 +133,7 @@ pub fn sample_track(
     let queue = Arc::new(SpscRing::with_capacity(capacity));
     let notify = Arc::new(Notify::new());
     let pop_lock = Arc::new(SyncMutex::new(()));
+    let push_lock = Arc::new(SyncMutex::new(()));
     let source_closed = Arc::new(AtomicBool::new(false));
     let active_senders = Arc::new(std::sync::atomic::AtomicUsize::new(1));
     let drop_count = Arc::new(AtomicU64::new(0));
@@ -151,6 +156,7 @@ pub fn sample_track(
         queue,
         notify,
         pop_lock,
+        push_lock,
         source_closed,
         active_senders,
         drop_count,
@@ -168,6 +174,7 @@ impl Clone for SampleStreamSource {
             queue: self.queue.clone(),
             notify: self.notify.clone(),
             pop_lock: self.pop_lock.clone(),
+            push_lock: self.push_lock.clone(),
             source_closed: self.source_closed.clone(),
             active_senders: self.active_senders.clone(),
             drop_count: self.drop_count.clone(),
@@ -181,6 +188,7 @@ impl SampleStreamSource {
             return Err(MediaError::Closed);
         }
 
+        let _push_guard = self.push_lock.lock();
         let sample = match self.queue.push(sample) {
             Ok(()) => {
                 self.notify.notify_one();
@@ -266,9 +274,12 @@ impl SampleStreamSource {
             return Err(MediaError::Closed);
         }
 
-        self.queue
-            .push(sample)
-            .map_err(|_| MediaError::WouldBlock)?;
+        {
+            let _push_guard = self.push_lock.lock();
+            self.queue
+                .push(sample)
+                .map_err(|_| MediaError::WouldBlock)?;
+        }
         self.notify.notify_one();
         Ok(())
     }
